@@ -61,6 +61,7 @@ class Knobs:
         self.p_prec = 0.0
         self.p_nested_abs = 0.5      # a global holiday inside a resource's multi-day leave
         self.p_group = 0.25
+        self.p_subgroup = 0.35       # a sub-group between the group and (one of) its members
         self.p_group_cal = 0.5       # a group carries hours / shift / zone / leave that its members inherit
         self.p_group_alloc = 0.08
         self.p_twin = 0.2
@@ -231,9 +232,14 @@ def gen_project(rng, k=None):
             group["children"].append(r)
         else:
             res.append(r)
+    if group is not None and len(group["children"]) >= 1 and pick(rng, k.p_subgroup):
+        # three levels: what the outer group declares has to reach the members through the sub-group
+        group["children"] = [{"id": "sub", "children": group["children"][:1]}] + group["children"][1:]
     p["resources"] = res
     # an absence nested inside another one: a company holiday in the middle of a resource's multi-day leave
-    for r in [x for x in res if not x.get("children")] + [c for x in res for c in (x.get("children") or [])]:
+    for _fid, r, _par in A.flat_resources(p):
+        if r.get("children"):
+            continue
         for lv in r.get("leaves") or []:
             if lv[2] is not None and lv[2] - lv[1] >= 2 * D and pick(rng, k.p_nested_abs):
                 p.setdefault("leaves", []).append(["holiday", lv[1] + D, None])
